@@ -102,6 +102,98 @@ func concTemplates(svc string) [][][]byte {
 	return nil
 }
 
+// the services' REAL hot paths: the same well-known requests from every connection
+func hotTemplates(svc string) [][][]byte {
+	one := func(xs ...[]byte) [][]byte { return xs }
+	get := func(paths ...string) [][][]byte {
+		var o [][][]byte
+		for _, p := range paths {
+			o = append(o, one(httpReq("GET", p, "", nil)))
+		}
+		return o
+	}
+	rpc := func(ms ...string) [][][]byte {
+		var o [][][]byte
+		for _, m := range ms {
+			o = append(o, one(httpReq("POST", "/", "application/json", bs(`{"jsonrpc":"2.0","method":"`+m+`","params":[],"id":1}`))))
+		}
+		return o
+	}
+	redis := func(args ...string) []byte {
+		s := fmt.Sprintf("*%d\r\n", len(args))
+		for _, a := range args {
+			s += fmt.Sprintf("$%d\r\n%s\r\n", len(a), a)
+		}
+		return bs(s)
+	}
+	switch svc {
+	case "docker":
+		return append(get("/info", "/v1.24/info", "/version", "/v1.24/version", "/v1.24/containers/json", "/_ping", "/v1.24/images/json"),
+			one(httpReq("POST", "/v1.24/containers/create", "application/json", bs(`{"Image":"alpine","Cmd":["id"]}`))), one(httpReq("POST", "/v1.24/containers/abc/start", "application/json", bs(`{}`))))
+	case "elasticsearch":
+		return append(get("/", "/_search", "/_cat/indices", "/_nodes", "/_cluster/health", "/_stats", "/_cat/nodes"), one(httpReq("POST", "/i/_search", "application/json", bs(`{"query":{"match_all":{}}}`))))
+	case "http", "https":
+		return append(get("/", "/index.html", "/robots.txt"), one(httpReq("POST", "/login", "application/x-www-form-urlencoded", bs("u=a&p=b"))), one(httpReq("HEAD", "/", "", nil)))
+	case "eos":
+		return [][][]byte{one(httpReq("POST", "/v1/chain/get_info", "application/json", bs(`{}`))), one(httpReq("GET", "/v1/chain/get_info", "", nil)),
+			one(httpReq("POST", "/v1/wallet/list_wallets", "application/json", bs(`[]`))), one(httpReq("POST", "/v1/wallet/list_keys", "application/json", bs(`[]`))), one(httpReq("POST", "/v1/chain/get_block", "application/json", bs(`{"block_num_or_id":1}`)))}
+	case "ethereum":
+		return rpc("eth_accounts", "eth_blockNumber", "net_version", "web3_clientVersion", "eth_getBalance", "personal_unlockAccount", "eth_coinbase", "rpc_modules", "eth_syncing", "net_peerCount", "eth_mining", "eth_hashrate", "eth_gasPrice", "personal_listAccounts", "admin_nodeInfo", "eth_protocolVersion")
+	case "cwmp":
+		soap := `<soap:Envelope xmlns:soap="http://schemas.xmlsoap.org/soap/envelope/"><soap:Body><u:GetParameterValues xmlns:u="urn:dslforum-org:cwmp-1-0"><n>x</n></u:GetParameterValues></soap:Body></soap:Envelope>`
+		return [][][]byte{one(httpReq("POST", "/", "text/xml", bs(soap))), one(httpReq("GET", "/", "", nil))}
+	case "ipp":
+		b := func(op byte) []byte {
+			return cat([]byte{1, 1, 0, op, 0, 0, 0, 1, 1}, ippAttr(0x47, "attributes-charset", "utf-8"), ippAttr(0x48, "attributes-natural-language", "en"),
+				ippAttr(0x45, "printer-uri", "ipp://lab/p"), ippAttr(0x42, "requesting-user-name", "u"), ippAttr(0x42, "job-name", "j"), []byte{3}, bs("%PDF"))
+		}
+		return [][][]byte{one(httpReq("POST", "/printers/p", "application/ipp", b(0x0b))), one(httpReq("POST", "/printers/p", "application/ipp", b(2))), one(httpReq("POST", "/", "application/ipp", b(4)))}
+	case "redis":
+		return [][][]byte{one(redis("info")), one(redis("info", "server")), one(redis("INFO", "all")), one(redis("info", "keyspace"), redis("info", "default")), one(redis("ping"))}
+	case "memcached":
+		return [][][]byte{one(bs("stats\r\n")), one(bs("set k 0 0 5\r\nhello\r\nget k\r\n")), one(bs("flush_all\r\n")), one(bs("version\r\n"))}
+	case "ftp":
+		return [][][]byte{one(bs("USER anonymous\r\nPASS anonymous\r\nSYST\r\nFEAT\r\nPWD\r\nTYPE I\r\nPASV\r\nQUIT\r\n")), one(bs("USER anonymous\r\nPASS anonymous\r\nCWD /\r\nMKD d\r\nSIZE a\r\nMDTM a\r\nSTAT\r\nHELP\r\nQUIT\r\n"))}
+	case "smtp":
+		return [][][]byte{one(bs("EHLO lab\r\nMAIL FROM:<a@lab>\r\nRCPT TO:<b@lab>\r\nDATA\r\nSubject: hi\r\n\r\nbody\r\n.\r\nQUIT\r\n")), one(bs("HELO lab\r\nHELP\r\nNOOP\r\nRSET\r\nQUIT\r\n"))}
+	case "telnet":
+		return [][][]byte{one(bs("root\r\nroot\r\nls\r\ncat /etc/passwd\r\nexit\r\n"))}
+	case "ldap":
+		t := func(id byte, parts ...[]byte) []byte {
+			c := cat(parts...)
+			return berTLV([]byte{id}, uint64(len(c)), 0, c)
+		}
+		msg := func(id byte, op []byte) []byte { return t(0x30, t(0x02, []byte{id}), op) }
+		bind := msg(1, t(0x60, t(0x02, []byte{3}), t(0x04, nil), t(0x80, nil)))
+		bindRoot := msg(1, t(0x60, t(0x02, []byte{3}), t(0x04, bs("root")), t(0x80, bs("root"))))
+		dse := msg(2, t(0x63, t(0x04, nil), t(0x0a, []byte{0}), t(0x0a, []byte{0}), t(0x02, []byte{0}), t(0x02, []byte{0}), t(0x01, []byte{0}), t(0x87, bs("objectclass")), t(0x30)))
+		uid := msg(3, t(0x63, t(0x04, bs("dc=x")), t(0x0a, []byte{2}), t(0x0a, []byte{0}), t(0x02, []byte{0}), t(0x02, []byte{0}), t(0x01, []byte{0}), t(0xa3, t(0x04, bs("uid")), t(0x04, bs("a"))), t(0x30)))
+		unbind := msg(4, t(0x42))
+		return [][][]byte{one(bind, dse, unbind), one(bindRoot, uid, unbind), one(dse), one(bind, uid)}
+	case "adb":
+		return [][][]byte{one(adbPkt("CNXN", 0x01000000, 4096, bs("host::\x00")), adbPkt("OPEN", 7, 0, bs("shell:\x00")), adbPkt("WRTE", 7, 9, bs("id\r")), adbPkt("CLSE", 7, 9, nil))}
+	case "vnc":
+		return [][][]byte{one(bs("RFB 003.008\n"), []byte{1}, []byte{1}, vncGood, []byte{2, 0, 0, 1, 0, 0, 0, 0}, vncUpdReq(0), vncUpdReq(1), []byte{5, 1, 0, 3, 0, 4})}
+	case "ssh-auth":
+		return [][][]byte{one(bs("SSH-2.0-OpenSSH_7.4\r\n"))}
+	case "counterstrike":
+		return [][][]byte{one(cat([]byte{0xff, 0xff, 0xff, 0xff, 0x54}, bs("Source Engine Query\x00")))}
+	case "dns":
+		return [][][]byte{one(cat([]byte{0x12, 0x34, 1, 0, 0, 1, 0, 0, 0, 0, 0, 0, 3}, bs("lab"), []byte{7}, bs("example"), []byte{0, 0, 1, 0, 1}))}
+	case "snmp":
+		return [][][]byte{one(snmpMsg(0xa0, -1, nil)), one(snmpMsg(0xa1, -1, nil)), one(snmpMsg(0xa3, -1, nil))}
+	case "tftp":
+		return [][][]byte{one(cat([]byte{0, 1}, bs("boot.bin"), []byte{0}, bs("octet"), []byte{0}))}
+	case "ntp":
+		p := make([]byte, 48)
+		p[0] = 0x1b
+		return [][][]byte{one(p)}
+	case "echo":
+		return [][][]byte{one(bs("hello\n"))}
+	}
+	return nil
+}
+
 func concScenarios(hr *hx.Rand, thorough bool) []Scenario {
 	var out []Scenario
 	for _, d := range svcDefs {
@@ -129,6 +221,16 @@ func concScenarios(hr *hx.Rand, thorough bool) []Scenario {
 			sc.Conns = append(sc.Conns, Conn{Segs: toB(tm[i%len(tm)])})
 		}
 		out = append(out, sc)
+		if hot := hotTemplates(d.Name); len(hot) > 0 {
+			h := sc
+			h.Fresh = false
+			h.Rounds = 4*rounds - 1 // no cap on how often a hot path can be taken: more rounds, one instance
+			h.Conns = nil
+			for i := 0; i < k; i++ {
+				h.Conns = append(h.Conns, Conn{Segs: toB(hot[i%len(hot)])})
+			}
+			out = append(out, h)
+		}
 		copies := 2 // state kept per instance may be bounded (remember at most N names): several fresh instances
 		if thorough {
 			copies = 5
